@@ -29,7 +29,7 @@ def _parse(kind, src):
     return node
 
 
-SKIP = ("sp", "attrs", "s", "global")
+SKIP = ("sp", "attrs", "s", "global", "tokens")
 
 
 def _ident(n):
